@@ -136,6 +136,20 @@ pub fn field_values(orig: u64, width: usize) -> Vec<u64> {
         mask - 3,
         mask - 7,
         mask - 15,
+        // small counts and indices around the sizes of fixed tables (2^k and 2^k - 1)
+        2,
+        3,
+        4,
+        7,
+        8,
+        15,
+        16 & mask,
+        31 & mask,
+        32 & mask,
+        63 & mask,
+        64 & mask,
+        127 & mask,
+        128 & mask,
     ];
     v.retain(|x| *x != orig);
     v.sort();
@@ -153,7 +167,19 @@ pub fn draw_field(r: &mut Rng, bytes: &[u8], fields: &[Field]) -> Option<Damage>
     if vals.is_empty() {
         return None;
     }
-    Some(Damage::Field { name: f.name.clone(), off: f.off, width: f.width, be: f.be, value: *r.pick(&vals) })
+    // mostly the table; sometimes any small value or any value near the original
+    let value = match r.below(8) {
+        0 => r.below(300),
+        1 => orig.wrapping_add(r.below(64)).wrapping_sub(32),
+        _ => *r.pick(&vals),
+    };
+    let bits = (8 * f.width.min(8)) as u32;
+    let mask = if bits >= 64 { u64::MAX } else { (1u64 << bits) - 1 };
+    let value = value & mask;
+    if value == orig {
+        return None;
+    }
+    Some(Damage::Field { name: f.name.clone(), off: f.off, width: f.width, be: f.be, value })
 }
 
 /// Draws one at-rest fault for a stored object of `len` bytes with the given structure
